@@ -31,6 +31,9 @@ func (fr *Frame) calleeKey(c *ssa.CallCommon) (key string, fn *ssa.Function) {
 		if pkg == "" && c.Method.Pkg() != nil {
 			pkg = c.Method.Pkg().Name()
 		}
+		if pkg == "" {
+			pkg = "builtin"
+		}
 		return pkg + "." + name + "." + c.Method.Name(), nil
 	}
 	if f := c.StaticCallee(); f != nil {
@@ -69,7 +72,20 @@ func (fr *Frame) doCall(st *State, instr ssa.Value, c *ssa.CallCommon, pos token
 		if cl, ok := fr.closures[c.Value]; ok {
 			return fr.callClosure(st, cl, args, pos)
 		}
-		// function-typed parameter / field: look for a contract attached to the callee expression
+		// function-typed parameter / field: the contract of the function under verification may
+		// declare the callback pure ("flag dyncall.<name>=pure")
+		if name := dynCallName(c.Value); name != "" && fr.spec != nil && fr.spec.Flags["dyncall."+name] == "pure" {
+			fc.w.assumed["callback "+name+" in "+funcKey(fr.fn)+" is assumed to have no effect on the modelled state"] = true
+			var res []Term
+			for i := 0; i < sig.Results().Len(); i++ {
+				rt := sig.Results().At(i).Type()
+				r := fc.fresh("r_cb", fc.sortOf(rt), rt)
+				fc.assume(st, fc.typeInv(r, rt, 0))
+				fc.assume(st, fc.allocInv(r, rt, st.nextID, 0))
+				res = append(res, r)
+			}
+			return res
+		}
 		return fr.unknownCall(st, "dynamic call of "+c.Value.Name(), sig, nil, pos)
 	}
 	if key == "builtin.ssa:wrapnilchk" || strings.HasSuffix(key, "ssa:wrapnilchk") {
@@ -131,6 +147,31 @@ func (fr *Frame) atCall(st *State, key string, c *ssa.CallCommon, pos token.Pos)
 			fc.addObligation(st, "typestate", fr.oblName(on), t, pos, cl.Src)
 		}
 	}
+}
+
+// dynCallName names the variable or field a called function value was read from.
+func dynCallName(v ssa.Value) string {
+	if u, ok := v.(*ssa.UnOp); ok && u.Op == token.MUL {
+		switch x := u.X.(type) {
+		case *ssa.FieldAddr:
+			if st, ok := isStruct(elemTypeOfPtr(x.X.Type())); ok {
+				return st.Field(x.Field).Name()
+			}
+		case *ssa.Alloc:
+			return x.Comment
+		case *ssa.FreeVar:
+			return x.Name()
+		}
+	}
+	if f, ok := v.(*ssa.Field); ok {
+		if st, ok := isStruct(f.X.Type()); ok {
+			return st.Field(f.Field).Name()
+		}
+	}
+	if p, ok := v.(*ssa.Parameter); ok {
+		return p.Name()
+	}
+	return ""
 }
 
 func autoInlinable(fn *ssa.Function) bool {
@@ -290,6 +331,7 @@ func (fr *Frame) contractCall(st *State, key string, spec *FuncSpec, fn *ssa.Fun
 		comps = fc.sortedComps()
 	}
 	fr.havocComps(st, comps, pre)
+	fr.protectStack(st, pre, comps)
 	// results
 	rn := resultNames(spec, sig)
 	var res []Term
@@ -343,6 +385,7 @@ func (fr *Frame) unknownCall(st *State, key string, sig *types.Signature, fn *ss
 		comps = fc.sortedComps()
 	}
 	fr.havocComps(st, comps, preCall)
+	fr.protectStack(st, preCall, comps)
 	var res []Term
 	for i := 0; i < sig.Results().Len(); i++ {
 		rt := sig.Results().At(i).Type()
@@ -757,6 +800,11 @@ func (fc *FnCtx) instrWrites(in ssa.Instruction, promoted map[*ssa.Alloc]bool, o
 		if spec := wspec; spec != nil && spec.Trusted {
 			return false
 		}
+		if key == "" {
+			if name := dynCallName(c.Value); name != "" && fc.modSpec != nil && fc.modSpec.Flags["dyncall."+name] == "pure" {
+				return false
+			}
+		}
 		return true
 	}
 	return false
@@ -818,7 +866,9 @@ func (fc *FnCtx) modset(fn *ssa.Function, visiting map[*ssa.Function]bool) ([]st
 	}
 	saveMode := fc.frameMode
 	fc.frameMode = true
-	defer func() { fc.frameMode = saveMode }()
+	saveSpec := fc.modSpec
+	fc.modSpec = fc.w.specs.Funcs[funcKey(fn)]
+	defer func() { fc.frameMode = saveMode; fc.modSpec = saveSpec }()
 	visiting[fn] = true
 	defer delete(visiting, fn)
 	out := map[string]bool{}
@@ -917,7 +967,9 @@ func (fr *Frame) loopWrites(li *loopInfo) (locals []*ssa.Alloc, comps []string, 
 	fc := fr.fc
 	saveMode := fc.frameMode
 	fc.frameMode = false
-	defer func() { fc.frameMode = saveMode }()
+	saveSpec := fc.modSpec
+	fc.modSpec = fr.spec
+	defer func() { fc.frameMode = saveMode; fc.modSpec = saveSpec }()
 	out := map[string]bool{}
 	seen := map[*ssa.Alloc]bool{}
 	for _, b := range fr.fn.Blocks {
